@@ -522,12 +522,13 @@ func runC18(r *Run, stratum string) *Violation {
 		if viol != nil || l.getPhase() == 2 {
 			break
 		}
-		if l.getPhase() == 1 && l.remaining() == 0 && len(l.ready()) == 0 {
+		if l.getPhase() == 1 && l.remaining() == 0 && len(l.ready()) == 0 && r.W.ParkedNow() == 0 {
 			break
 		}
 		l.step(nil)
 	}
 	// drain
+	r.Calm()
 	for i := 0; i < 40 && viol == nil && l.getPhase() != 2; i++ {
 		r.Settle()
 		for _, rc := range l.ready() {
